@@ -147,7 +147,12 @@ func strGsub(L *LState) int {
 	pat := L.CheckString(2)
 	L.CheckTypes(3, LTString, LTTable, LTFunction)
 	repl := L.CheckAny(3)
-	limit := L.OptInt(4, -1)
+	limit := L.OptInt(4, len(str)+1)
+	if limit <= 0 { // Lua 5.1: while (n < max_s) — nothing is replaced
+		L.SetTop(1)
+		L.Push(LNumber(0))
+		return 2
+	}
 
 	mds, err := pm.Find(pat, unsafeFastStringToReadOnlyBytes(str), 0, limit)
 	if err != nil {
